@@ -6,7 +6,6 @@ import torch
 from .sampler_base import PointSampler
 from ..spaces import Points
 
-import time
 
 class DataSampler(PointSampler):
     """A sampler that processes external created data points.
@@ -42,23 +41,19 @@ class DataSampler(PointSampler):
         # (For example evaluation on quadrature points)
         # TODO: Make more general. What happends when parameters have higher dimension?
         # What when multiple dimension in both that do not fit?
-        start_time = time.time()
+        repeated_params = params
         if len(self.points.as_tensor.shape) > 2:
             repeated_tensor = params.as_tensor
             for i in range(1, len(self.points.as_tensor.shape)-1):
-                repeated_tensor = torch.repeat_interleave(repeated_tensor.unsqueeze(-1),
+                repeated_tensor = torch.repeat_interleave(repeated_tensor.unsqueeze(i),
                                                         self.points.as_tensor.shape[i],
                                                         dim=i)
-            
+
             repeated_params = Points(repeated_tensor, params.space)
-        print("Dimension thing took", time.time() - start_time)
 
         # else we have to repeat data (meshgrid of both) and join the tensors together:
-        start_time = time.time()
+        # row i*len(self)+j carries data row j and parameter row i
         repeated_params = self._repeat_params(repeated_params, len(self))
-        print("Repeating params took", time.time() - start_time)
-        start_time = time.time()
         repeated_points = self.points.repeat(len(params))
-        print("Repeating points took", time.time() - start_time)
 
         return repeated_points.join(repeated_params)
